@@ -270,3 +270,43 @@ def run(ctx):
                             'number evaluated: after the first non-matching pair every later match is credited to the wrong row')
     ctx.ob(R7, 'executors·positions-count-read-rows', True, f'{n_cnt} usize counters in executor:: examined', nontrivial=False)
     ctx.floor(R7, n_cnt, 4, 'usize counters in executor::')
+
+    R8 = 'C11-R8'
+    ctx.rule(R8, 'the executors that match join keys as DataValues (hash join, hash semi joins, merge join) receive keys of ONE type per pair: '
+                 'DataValue equality / hash / order is per variant (Int32(1) != Int64(1)) whereas the `=` kernel of the nested-loop join '
+                 'compares INT with BIGINT numerically. So the key lists put into those executors by the builder must come out of a '
+                 'function that unifies the two key types (DataType::union) and builds casts (Expr::Cast). [A planner-side guarantee - '
+                 'equi-join rules that require equal key types - would serve as well and would need this rule to be extended.]')
+    KEYED = re.compile(r'^executor::(hash_join::(HashJoinExecutor|HashSemiJoinExecutor|HashSemiJoinExecutor2)|merge_join::MergeJoinExecutor)$')
+    n_keys = 0
+    for b in prog.bodies.values():
+        if not b.name.startswith('executor::') or b.rec.get('derived'):
+            continue
+        for bb, st in b.aggregates():
+            rv = st['rv']
+            if not KEYED.match(rv['adt']) or 'left_keys' not in rv.get('fields', []):
+                continue
+            ctx.functions_analysed.add(b.name)
+            for fld in ('left_keys', 'right_keys'):
+                n_keys += 1
+                op = rv['ops'][rv['fields'].index(fld)]
+                unified = []
+                if op['k'] != 'const':
+                    srcs = origin_locals(b, op['pl']['l'], depth=10)
+                    for c in b.calls:
+                        if c.dest['l'] in srcs:
+                            for cn in prog.callee_bodies(c):
+                                cb = prog.bodies[cn]
+                                reach = prog.reach(cb.root, 3)
+                                if any(prog.group_calls(r, suffix('DataType::union')) for r in reach) and \
+                                        any(True for r in reach for g in prog.group(r) for _ in g.aggregates('planner::Expr', 'Cast')):
+                                    unified.append(cb.root)
+                short_adt = rv['adt'].rsplit('::', 1)[-1]
+                ctx.ob(R8, f'{b.root}·{short_adt}·{fld}·one-type-per-key-pair', bool(unified),
+                       f'{b.name} block {bb}: `{fld}` of {short_adt} ' + (f'comes from {sorted(set(unified))} (DataType::union + Expr::Cast)' if unified
+                                                                       else 'is not derived from a function that unifies the key types'),
+                       [site(b, bb)],
+                       what=f'{short_adt} is built with `{fld}` as resolved from the plan, without casting the key pair to one type: it matches '
+                            'keys as DataValues, so `t1.a INT = t2.c BIGINT` finds no partner for equal numbers while the nested-loop join '
+                            '(the `=` kernel) does - the result depends on which join the optimizer picks')
+    ctx.floor(R8, n_keys, 8, 'key lists handed to DataValue-keyed join executors')
